@@ -11,6 +11,7 @@ mod c02;
 mod c06;
 mod maps;
 mod c01;
+mod c04;
 
 pub use util::*;
 
@@ -29,6 +30,8 @@ fn props() -> Vec<Prop> {
         Prop { id: "C06", run: c06::run, gen: c06::gen },
         Prop { id: "C01", run: c01::run, gen: c01::gen },
         Prop { id: "C03", run: c01::run_c03, gen: c01::gen },
+        Prop { id: "C04", run: c04::run, gen: c04::gen },
+        Prop { id: "C07", run: c04::run_c07, gen: c04::gen_c07 },
     ]
 }
 
